@@ -543,7 +543,7 @@ class Body:
         name = c.get("res", {}).get("def") if c.get("res", {}).get("is_item") else None
         name = name or c.get("def") or ("indirect:" + c.get("indirect", "?"))
         args = tuple(self.term_of_operand(a, depth + 1, at) for a in t["args"])
-        return ("call", name, args, tuple(c.get("args", [])))
+        return ("call", name, args, tuple(c.get("args", [])), c.get("def") or name)
 
     def term_of_rvalue(self, r, depth=0, at=None):
         k = r["r"]
@@ -604,7 +604,11 @@ def tstr(t):
     """Compact human-readable rendering of a term."""
     if not isinstance(t, tuple):
         return str(t)
+    if not t:
+        return "()"
     k = t[0]
+    if not isinstance(k, str):
+        return "(%s)" % ", ".join(tstr(a) for a in t)
     if k == "param":
         return t[2] or ("arg%d" % t[1])
     if k == "var":
